@@ -236,3 +236,59 @@ func verifBytesSame12(a, b []byte) bool {
 	}
 	return true
 }
+
+// Interest signed with a stub of each asymmetric signer shape: the bytes handed to the signer, the signed portion
+// reported by the encoder and the one reconstructed by the decoder agree; the signature value decodes to what the
+// signer returned - also when it is shorter than the estimate and the total length crosses a length-form boundary
+// (application parameters of symbolic length 0..300 with opaque contents).
+func VerifC12_InterestCoveredAgreement() {
+	name, _ := enc.NameFromStr("/A") // the name plays no role in the length arithmetic under test
+	shapes := []struct {
+		typ ndn.SigType
+		est uint
+	}{{ndn.SignatureSha256WithEcdsa, 72}, {ndn.SignatureEd25519, 64}, {ndn.SignatureHmacWithSha256, 32}} // the encoder refuses estimates >= 253 (RSA) for Interests
+	sh := shapes[verifChoice("shape", len(shapes))]
+	keyName, _ := enc.NameFromStr("/key") // the Interest encoder insists on a key locator for these signature types
+	lens := []int{int(sh.est) - 2, int(sh.est) - 1, int(sh.est)}
+	if sh.est > 253 {
+		lens = append(lens, 252, 253)
+	}
+	sig := verifBytesUF("sig", lens[verifChoice("siglen", len(lens))])
+	var handed []byte
+	signer := verifStubSigner{typ: sh.typ, keyName: keyName, est: sh.est, sig: sig, covered: &handed}
+	lt := 4 * time.Second
+	// parameter lengths: boundary values of the parameters' own length field, and the lengths that put the whole
+	// Interest within 4 bytes of the 252/253 length-form boundary (found by encoding a probe Interest first)
+	probeSigner := verifStubSigner{typ: sh.typ, keyName: keyName, est: sh.est, sig: make([]byte, sh.est), covered: new([]byte)}
+	probe, perr0 := spec.Spec{}.MakeInterest(name, &ndn.InterestConfig{Lifetime: &lt}, enc.Wire{make([]byte, 100)}, probeSigner)
+	verifAssert(perr0 == nil && probe != nil, "C12/sinterest/probe")
+	atBoundary := 100 + 255 - len(probe.Wire.Join())
+	applens := []int{1, 2, 252, 253, 254, 300}
+	for d := -6; d <= 4; d++ {
+		if atBoundary+d > 0 {
+			applens = append(applens, atBoundary+d)
+		}
+	}
+	app := enc.Wire{verifBytesUF("app", applens[verifChoice("applen", len(applens))])}
+	var ei *ndn.EncodedInterest
+	var err error
+	verifNoPanic("C12/sinterest/make-no-panic", func() {
+		ei, err = spec.Spec{}.MakeInterest(name, &ndn.InterestConfig{Lifetime: &lt}, app, signer)
+	})
+	verifAssert(err == nil && ei != nil, "C12/sinterest/make-succeeds")
+	wire := ei.Wire.Join()
+	verifAssertBytesEq(ei.SigCovered.Join(), handed, "C12/sinterest/encoder-reports-the-bytes-it-handed-to-the-signer")
+	var i ndn.Interest
+	var cov enc.Wire
+	var perr error
+	verifNoPanic("C12/sinterest/read-no-panic", func() { i, cov, perr = spec.Spec{}.ReadInterest(enc.NewBufferReader(wire)) })
+	verifAssert(perr == nil && i != nil, "C12/sinterest/decodes")
+	if perr != nil || i == nil {
+		return
+	}
+	verifAssertBytesEq(cov.Join(), handed, "C12/sinterest/decoder-reconstructs-the-signed-portion")
+	verifAssertBytesEq(i.Signature().SigValue(), sig, "C12/sinterest/decoded-signature-value-is-what-the-signer-returned")
+	verifAssert(i.Signature().SigType() == sh.typ, "C12/sinterest/decoded-signature-type")
+	verifAssertBytesEq(i.AppParam().Join(), app.Join(), "C12/sinterest/decoded-parameters")
+	verifObserve("wirelen", len(wire))
+}
